@@ -18,6 +18,7 @@ func vfConfig(dataDir, id string) *Config {
 	c.Clustering.ServerID = id
 	c.Clustering.Namespace = "vf"
 	c.LogSilent = true
+	c.LogRecovery = true // finishedRecovery would otherwise un-silence the logger
 	c.Telemetry.Enabled = false
 	return c
 }
